@@ -287,8 +287,8 @@ def coq_observed(obs):
     if obs[0] == 'err':
         return f'(OErr {obs[1]})'
     _, cnt, before, sc, cc, final, file_, lines = obs
-    return (f'(OOk {cz(cnt)} {coq_table(before)} {coq_pairs(sc)} '
-            f'{coq_pairs(cc)} {coq_table(final)} '
+    return (f'(OOk {copt(cnt, cz)} {coq_table(before)} {copt(sc, coq_pairs)} '
+            f'{copt(cc, coq_pairs)} {coq_table(final)} '
             f'{copt(file_, coq_table)} {copt(lines, coq_lines)})')
 
 
@@ -445,12 +445,8 @@ def run_impl(case, rng):
                 dic_vol[key] = dic_vol[j].copy()
                 dic_vol[key].fictive = False
             before = canon_table(dic_vol)
-            cnt = conv.new_cell_key
-            sc = sorted((int(k), int(v))
-                        for k, v in conv.convert_surface_cache.items())
-            cc = sorted((int(k), int(v))
-                        for k, v in conv.convert_cellref_cache.items()
-                        if v is not None)
+            cnt = getattr(conv, 'new_cell_key', None)
+            sc, cc = read_caches(conv)
             if case['rn'] is not None and len(dic_vol):
                 # as convertMCNPGeometry does after the de-duplication
                 dic_vol = renumber_surfaces(dic_vol, case['rn'])
@@ -470,6 +466,20 @@ def run_impl(case, rng):
         file_, why = file_table(text)
         lines = volu_lines(text)
     return ('ok', cnt, before, sc, cc, final, file_, lines), dic_vol, text
+
+
+def read_caches(conv):
+    '''The two caches of CellConversion, sorted by key, through their
+    attribute names; (None, None) when a rewrite renamed them: the cache tie
+    is then skipped (the table and counter ties, which every cache effect
+    reaches, stay).'''
+    surf = getattr(conv, 'convert_surface_cache', None)
+    cref = getattr(conv, 'convert_cellref_cache', None)
+    if not isinstance(surf, dict) or not isinstance(cref, dict):
+        return None, None
+    return (sorted((int(k), int(v)) for k, v in surf.items()),
+            sorted((int(k), int(v)) for k, v in cref.items()
+                   if v is not None))
 
 
 def effective_rn(case, obs):
